@@ -3,6 +3,7 @@ CONSTANTS Urls <- UrlsC
           Cfgs <- CfgsC
           RebuildOnlyIfChanged = FALSE
           FirstOfBatch = FALSE
+          PullOnNull = TRUE
           IdentsAccumulate = FALSE
           ForgetIdentRecord = TRUE
           ConfigRebuilds = TRUE
